@@ -9,6 +9,7 @@ import Proofs.Lemmas.SalsaRounds
 import Proofs.Lemmas.StreamEnc
 import Proofs.Lemmas.SalsaBytes
 import Proofs.Lemmas.Rc4
+import Proofs.Lemmas.SalsaKey
 namespace Proofs.C06
 open Model Model.Gen.Streams Proofs.Lemmas.StreamPoly Proofs.Lemmas.SalsaRounds Proofs.Lemmas.StreamEnc Proofs.Lemmas.SalsaBytes
 
@@ -210,6 +211,21 @@ theorem chacha_enc_prefix (K : List Bits) (P : List (BitVec 32)) (hP : P.length 
   refine ⟨_, _, ⟨some K, ofBV P'', dr⟩, ⟨some K, ofBV P3, dr⟩, h, ?_, ?_⟩
   · rw [h2, encW_sameKey _ dr 14 12 hk, encW_prefix chachaSpec dr 14 12 P hP, List.map_take]
   · rw [h3, encW_prefix chachaSpec dr 14 12 P hP, List.map_take]
+
+/-! ## C'. the Salsa20 hash ('core') function on 64 bytes -/
+
+/-- **hash_refines** (20 rounds = 10 doublerounds, whatever `rounds` the object was built with): for every 64-byte input,
+    `Salsa20().hash(m)` — `Bits(m,bitorder=1).split(32)`, `core`, `pack` of every word — is the Salsa20 hash function of
+    section 8: little-endian words, 10 doublerounds, feed-forward, little-endian bytes -/
+theorem salsa_hash_refines (m : List (BitVec 8)) (hm : m.length = 64) :
+    Salsa.hash Salsa.salsa (m.map BitVec.toNat) = .ok ((Spec.Salsa20.hash m).map BitVec.toNat) :=
+  Proofs.Lemmas.SalsaKey.hash_words salsaSpec m hm
+
+/-- the inherited `Chacha().hash(m)` is the ChaCha20 core (column/diagonal rounds) on the 16 little-endian words of `m` -/
+theorem chacha_hash_refines (m : List (BitVec 8)) (hm : m.length = 64) :
+    Salsa.hash Chacha.chacha (m.map BitVec.toNat) =
+      .ok ((Spec.Salsa20.unwords (Spec.Chacha.coreWords 10 (Spec.Salsa20.words m))).map BitVec.toNat) :=
+  Proofs.Lemmas.SalsaKey.hash_words chachaSpec m hm
 
 /-! ## D. RC4 -/
 
